@@ -114,6 +114,20 @@ func (c *Ctx) genC09() {
 			}
 		}
 	}
+	// well-formed, validly encrypted assertions that omit the optional DigestMethod (rsa-oaep-mgf1p on its default digest) or use
+	// rsa-1_5 key transport, which has none: accepted like any other (signed / unsigned Response, both entry points)
+	for _, wrap := range []string{"e", "e-nodigest", "e-pkcs15"} {
+		for _, rsig := range []string{"none", "idp"} {
+			for _, entry := range []string{"xml", "post"} {
+				cfg := baseCfg()
+				r := baseResp(cfg, now)
+				r.Sig = rsig
+				r.Entries[0].Wrap = wrap
+				c.count("c09-encrypted-key-shape", wrap)
+				c.runSP(spCase{cfg: cfg, now: now, ids: []string{"id-req1"}, url: cfg.Acs, r: r, lex: 0, entry: entry})
+			}
+		}
+	}
 	// a Response whose only assertion-like children are not SAML assertions (foreign, empty or protocol namespace), or that has
 	// none at all: nothing to return, so an error — never (nil, nil)
 	for _, foreign := range [][]string{{}, {"assn-defaultns"}, {"assn-prefixed"}, {"assn-emptyns"}, {"enc-defaultns"}, {"enc-prefixed"}, {"assn-protocolns"}, {"assn-defaultns", "enc-defaultns"}} {
